@@ -6,7 +6,7 @@ cd /verif
 for i in $(seq -w 1 20); do id=C$i; w=/tmp/seed$n-$id; d=seeded/$id-w$n
   if [ -f $w/seed.patch ] && [ -f $w/seed_meta.json ] && [ -f $w/seed_demo_test.go ]; then
     mkdir -p $d; cp $w/seed.patch $d/patch.diff; cp $w/seed_demo_test.go $d/demo_test.go.txt; cp $w/seed_meta.json $d/agent_meta.json
-    if [ ! -f $d/first_result.txt ]; then tools/scratch_eval.sh $w $id > $d/first_result.txt 2>&1; fi
+    if [ ! -f $d/first_result.txt ]; then timeout 600 tools/scratch_eval.sh $w $id > $d/first_result.txt 2>&1 || echo "TIMEOUT-OR-ERROR" >> $d/first_result.txt; fi
     echo "$id-w$n: $(cat $d/first_result.txt | cut -c1-180)"
   else echo "$id-w$n: pending"; fi
 done
